@@ -455,7 +455,22 @@ def run(ctx):
     from athlib.qkids_score import _qkidsTables, _compTypeMap
     keys = sorted({k for t in _tyrvingTables.values() for k in t} | {k for t in _qkidsTables.values() for k in t})
     nreq = [(k,) for k in keys] + [(k.lower(),) for k in keys] + [(' ' + k + ' ',) for k in keys] + [(k.upper(),) for k in keys]
-    nreq = list(dict.fromkeys(nreq))
+    # unit spellings of the keys: a kilogram key 'DT1K' typed 'DT1KG', 'DT1Kg', 'DT1kG', 'DT1kg', 'DT1 KG', 'DT1.0K', 'DT1.K'
+    # (all accepted by the pattern); gram keys with and without 'g'; centimetre / metre hurdle specifications are in `spaced`
+    units = []
+    for k in keys:
+        if k.endswith('K') and len(k) > 2 and (k[-2].isdigit()):
+            stem = k[:-1]
+            for suf in ('KG', 'Kg', 'kG', 'kg', 'k', ' KG', ' kg', ' K'):
+                units.append((stem + suf,))
+            if '.' not in stem[2:]:
+                units += [(stem + '.0K',), (stem + '.K',), (stem + '.00KG',)]
+            else:
+                units += [(stem + '0K',), (stem + '00kg',)]
+        elif k[-1].isdigit() and k[:2] in ('JT', 'OT'):
+            units += [(k + 'g',), (k + ' g',)]
+    nreq = list(dict.fromkeys(nreq + units))
+    ctx.stats['norm_unit_spellings'] = len(units)
     # spellings with white space inside (between the distance and what follows, before a unit), each asked three times
     # in a row and then once more later: an answer must not depend on the calls before it (a sticky regular expression,
     # a memo) on either side
